@@ -157,7 +157,7 @@ def handleShutdownEmfile (args : List String) (obs : String) : String :=
   | _ => "bad-case\tFAIL:bad-case"
 
 def respLen (p : Char) (i : Nat) : Nat :=
-  if p.toLower == 'i' ∨ p.toLower == 'h' then 2 else if p == 'r' then 5 + (toString i).length else if p == 'b' then 7 else 6 * 1024 * 1024
+  if p.toLower == 'i' ∨ p.toLower == 'h' then 2 else if p == 'r' ∨ p == 'x' ∨ p == 'f' then 5 + (toString i).length else if p == 'b' then 7 else 6 * 1024 * 1024
 
 /-- c13 `<n> <phases> <delay>` -/
 def handleShutdown (args : List String) (obs : String) : String :=
@@ -185,7 +185,7 @@ def handleShutdown (args : List String) (obs : String) : String :=
           s!"{p}:{first}+{second}"
         | none => s!"{p}:closed+closed"
       let b := fun (x : Bool) => if x then "1" else "0"
-      let model := s!"early={b early} stopped={b stopped} bounded={b bounded} late=refused conns={",".intercalate (ph.zipIdx.map fun (p, i) => conn p i)}"
+      let model := s!"early={b early} stopped={b stopped} bounded={b bounded} late=refused leak=0 conns={",".intercalate (ph.zipIdx.map fun (p, i) => conn p i)}"
       let verdict := Id.run do
         if obs == "PANIC" ∨ obs == "noconn" ∨ obs == "setup-failed" then return "FAIL:setup:" ++ obs
         let mut fails : List String := []
@@ -193,6 +193,7 @@ def handleShutdown (args : List String) (obs : String) : String :=
         if field obs "stopped" != "1" ∨ field obs "bounded" != "1" then fails := fails ++ ["stop-signal-late"]
         if field obs "late" == "served" then fails := fails ++ ["served-after-stop"]
         if field obs "stopped" == "1" ∧ field obs "late" != "refused" then fails := fails ++ ["listener-not-released"]
+        if field obs "leak" != "0" then fails := fails ++ ["temp-file-outlives-connection"]
         for (c, (p, i)) in (splitNonEmpty (field obs "conns") ",").zip ph.zipIdx do
           match ((c.drop 2).toString).splitOn "+" with
           | [first, second] =>
